@@ -9,6 +9,8 @@ from .iter_rules import *
 
 def run(chk, ctx):
     P = Prog(ctx["facts"])
+    from .iter_rules import signal_api_rule
+    signal_api_rule(chk, P)   # what an input / output / bidirectional signal with a default *is*
     chk.explanation = ("C02 is structural and every clause is decided on all paths: WHO (which public entry points reach a driver call, transitively), CNT (number of driver calls per path of try_new / next / handle_io, "
                        "split by the shape of the returned value, composed through callee summaries), GUARD (read-call iff update_output, write-call otherwise, with an empty output vector), "
                        "ORG (the argument of every driver call is the row's own input vector / the default vector, passed by reborrow only; the yielded DataRow.inputs is that same vector moved), "
